@@ -853,7 +853,7 @@ class CNLTransformer(Transformer):
             attribute.set_name('element')
             entity.set_attributes_value([elem[0]])
             return entity
-        except EntityNotFound as e:
+        except (EntityNotFound, AttributeGenericError) as e:
             raise CompilationError(str(e), meta.line)
 
     @v_args(meta=True)
